@@ -258,6 +258,9 @@ def havoc_for_loop(ex: Exec, names: set[str], st: ast.stmt | None = None, heap: 
         coarse_maps = None
     else:
         for base, maps in writes:
+            via = None
+            if isinstance(base, tuple) and base[0] == "via":
+                _, base, via = base
             free = {x.id for x in ast.walk(base) if isinstance(x, ast.Name)} if base is not None else set()
             if base is not None and not (free & names) and all(v in ex.locals for v in free):
                 try:
@@ -268,7 +271,10 @@ def havoc_for_loop(ex: Exec, names: set[str], st: ast.stmt | None = None, heap: 
                     finally:
                         ex.spec = saved
                     if v.ty.kind in ("dict", "list", "set", "obj", "tuple"):
-                        targeted.append((ex.ref_id(v), maps))
+                        oid = ex.ref_id(v)
+                        if via is not None:
+                            oid = S.un_ref(ex.rd("fld:" + via, oid))
+                        targeted.append((oid, maps))
                         continue
                 except Unsupported:
                     pass
@@ -352,10 +358,24 @@ def loop_writes(ex: Exec, st: ast.stmt) -> list[tuple[ast.expr | None, tuple[str
                     continue
                 if _is_callable_field(name):
                     continue  # first-class callable stored in a record: pure by assumption (apply_fn)
+                from . import lib
+
+                if name in lib.METHOD_WRITES:
+                    via, maps = lib.METHOD_WRITES[name]
+                    out.append((("via", f.value, via), maps))
+                    continue
+                dotted = ast.unparse(f)
+                if dotted.split(".")[0] in lib.PURE_MODULES:
+                    continue  # library function: returns new objects, writes nothing that exists
                 return None
             if isinstance(f, ast.Name):
                 if f.id in _PURE_FUNCS or f.id in ex.locals:
                     continue
+                from .calls import resolve_name
+
+                r = resolve_name(ex, f.id)
+                if r is not None and r[0] == "class":
+                    continue  # constructor: allocates only
                 return None
             return None
     return out
